@@ -22,7 +22,8 @@ type Job struct {
 	C10      *C10Cfg `json:"c10,omitempty"`
 	C05      *C05Cfg `json:"c05,omitempty"`
 	C18      *C18Cfg `json:"c18,omitempty"`
-	Mode     string  `json:"mode"` // explore | split | replay
+	CodecSig string  `json:"codec_sig,omitempty"` // harness "codec": the violation signature to re-check
+	Mode     string  `json:"mode"`                // explore | split | replay
 	B        Bounds  `json:"bounds"`
 	Prefix   []int   `json:"prefix,omitempty"`
 	Choices  []int   `json:"choices,omitempty"` // replay: the exact answers at every choice point
@@ -149,6 +150,8 @@ func (job *Job) cfgString() string {
 		return job.C05.String()
 	case job.C18 != nil:
 		return job.C18.String()
+	case job.Harness == "codec":
+		return "codec product space (Wire.Write -> Wire.Read), part producing " + job.CodecSig
 	}
 	return job.Harness
 }
@@ -158,6 +161,20 @@ func RunJob(job *Job) *JobResult {
 	t0 := time.Now()
 	jr := &JobResult{ID: job.ID, Obs: map[string]int64{}, ViolCount: map[string]int64{}, Gray: map[string]*GrayInfo{}, Complete: true}
 	defer func() { jr.WallMS = time.Since(t0).Milliseconds() }()
+	if job.Harness == "codec" {
+		// a codec violation is re-checked by re-running the part of the codec enumeration that produces it
+		cr := checkCodec(job.CodecSig)
+		jr.Executions = cr.RoundTrips + cr.Truncations + cr.BadMagic + cr.BackToBack
+		for _, v := range cr.Violations {
+			jr.ViolCount[v.Sig]++
+			if jr.ViolCount[v.Sig] == 1 {
+				jr.Viol = append(jr.Viol, FoundViol{Viol: v})
+			}
+		}
+		jr.Obs[fmt.Sprintf("codec: %d cases, %d violation kinds", jr.Executions, len(jr.ViolCount))]++
+		jr.Sample = &Sample{Config: "codec " + job.CodecSig, Obs: fmt.Sprintf("%d codec cases re-run, violations: %v", jr.Executions, jr.ViolCount)}
+		return jr
+	}
 	if job.Mode == "replay" {
 		rp := &Replayer{List: job.Choices}
 		res, out := runOnce(job, rp, true)
